@@ -18,5 +18,6 @@ MC_MaxExtra == 0
 MC_EMIT == TRUE
 MC_ListOrders == {"asc"}
 MC_BatchAtEnd == FALSE
+MC_CoordPkps == {"current"}
 
 ====
